@@ -5,6 +5,7 @@ import (
 	"fmt"
 	"math"
 	"math/rand/v2"
+	"regexp"
 	"strconv"
 	"strings"
 	"time"
@@ -77,16 +78,29 @@ func Process(stmts []*proto.Statement, rwrand, rwtime bool) (retErr error) {
 	return nil
 }
 
+// callWS matches what SQLite allows between a function name and its opening
+// parenthesis: white space and comments.
+const callWS = `(?:\s|--[^\n]*(?:\n|$)|/\*.*?\*/)*`
+
+var (
+	// timeCallRe matches a call of a time-related function. It also matches
+	// datetime( and strftime(, since they end in time(.
+	timeCallRe = regexp.MustCompile(`(?s)(?:time|date|julianday|unixepoch|timediff)` + callWS + `\(`)
+
+	// randomCallRe matches a call of random or randomblob.
+	randomCallRe = regexp.MustCompile(`(?s)random(?:blob)?` + callWS + `\(`)
+)
+
 // ContainsTime returns true if the statement contains a time-related function.
 // The function performs a lower-case comparison so it is up to the caller to
 // ensure the statement is lower-cased.
 func ContainsTime(stmt string) bool {
-	// Since this is a simple substring search, it also matches datetime(
-	// and strftime(.
-	targets := []string{"time(", "date(", "julianday(", "unixepoch(", "timediff("}
+	// The cheap substring tests come first, the regular expression is only
+	// run on statements which mention one of the names at all.
+	targets := []string{"time", "date", "julianday", "unixepoch"}
 	for _, target := range targets {
 		if strings.Contains(stmt, target) {
-			return true
+			return timeCallRe.MatchString(stmt)
 		}
 	}
 	return false
@@ -96,13 +110,7 @@ func ContainsTime(stmt string) bool {
 // The function performs a lower-case comparison so it is up to the caller to
 // ensure the statement is lower-cased.
 func ContainsRandom(stmt string) bool {
-	targets := []string{"random(", "randomblob("}
-	for _, target := range targets {
-		if strings.Contains(stmt, target) {
-			return true
-		}
-	}
-	return false
+	return strings.Contains(stmt, "random") && randomCallRe.MatchString(stmt)
 }
 
 // ContainsReturning returns true if the statement contains a RETURNING clause.
